@@ -310,6 +310,7 @@ func (fc *FnCtx) enterLoop(l *Loop, head *ssa.BasicBlock, iter func(yield func(f
 	// 2. havoc
 	mods := fc.loopMods(l)
 	fc.havocLoop(&fc.cur, mods, l)
+	fc.havocLoopBookkeeping(l)
 	for _, phi := range phis {
 		pv := fc.freshVal(phi.Name()+"."+phi.Comment, phi.Type())
 		if f := fc.familyOf[phi]; f != nil {
@@ -528,4 +529,30 @@ func (fc *FnCtx) addrOfVar(name string) (string, types.Type) {
 		}
 	}
 	return "", nil
+}
+
+// havocLoopBookkeeping: the call-tracking cells (called("F"), callres("F"), sends()) that the loop body updates
+// hold, at the loop head, whatever an earlier iteration left there.
+func (fc *FnCtx) havocLoopBookkeeping(l *Loop) {
+	tr := fc.trackedCalls()
+	for b := range l.Body {
+		for _, in := range b.Instrs {
+			switch x := in.(type) {
+			case *ssa.Send:
+				fc.cur.m["$sends"] = fc.fresh("$sends", SInt)
+			case *ssa.Call:
+				for _, n := range callName(x) {
+					if !tr[n] {
+						continue
+					}
+					fc.cur.m["$called."+n] = fc.fresh("$called."+n, SBool)
+					for name := range fc.cur.m {
+						if strings.HasPrefix(name, "$cr."+n+".") {
+							fc.cur.m[name] = "" // refreshed lazily with its sort at the next use
+						}
+					}
+				}
+			}
+		}
+	}
 }
